@@ -38,7 +38,22 @@ pub fn sources(dir: bool, rng: &mut Rng) -> String {
     if dir {
         (*rng.pick(&["", "", "/mnt/w/outside", "/proc/fs", "/proc/self/net", "/proc/self/cwd"])).to_string()
     } else {
-        (*rng.pick(&["/mnt/w/outside/secret", "/mnt/w/outside/secret", "/proc/version", "/proc/self/environ", "/proc/self/exe", "/proc/1/status"])).to_string()
+        // (the last ones are symlinks mounted as such: a foreign link that leads to another
+        // process's directory, and procfs's own links)
+        (*rng.pick(&[
+            "/mnt/w/outside/secret",
+            "/mnt/w/outside/secret",
+            "/proc/version",
+            "/proc/self/environ",
+            "/proc/self/exe",
+            "/proc/1/status",
+            "nofollow:/mnt/w/outside/to-pid1",
+            "nofollow:/mnt/w/outside/to-pid1",
+            "nofollow:/mnt/w/outside/to-abs-pid1",
+            "nofollow:/proc/thread-self",
+            "nofollow:/proc/mounts",
+        ]))
+        .to_string()
     }
 }
 
@@ -46,7 +61,7 @@ pub fn plan(tier: &str, seed: u64) -> Vec<Batch> {
     let (n, race) = match tier {
         "thorough" => (200, 200),
         "dev" => (1, 1),
-        _ => (20, 20),
+        _ => (20, 32),
     };
     let mut v = Vec::new();
     let mut unis = vec![UniCfg::k(), UniCfg::e()];
@@ -63,8 +78,14 @@ pub fn plan(tier: &str, seed: u64) -> Vec<Batch> {
             v.push(Batch { check: "C06".into(), phase: "static".into(), uni: uni.clone(), seed, lo: i * PER_BATCH, hi: (i + 1) * PER_BATCH, fresh: false, tier: tier.into(), extra: Value::Null });
         }
         if ui < 2 {
+            let nm = race_matrix().len() as u64;
+            let mut lo = 0;
+            while lo < nm {
+                v.push(Batch { check: "C06".into(), phase: "race-matrix".into(), uni: uni.clone(), seed, lo: lo * RACE_W, hi: (lo + 4).min(nm) * RACE_W, fresh: false, tier: tier.into(), extra: Value::Null });
+                lo += 4;
+            }
             for i in 0..race {
-                v.push(Batch { check: "C06".into(), phase: "race".into(), uni: uni.clone(), seed, lo: i * 12, hi: (i + 1) * 12, fresh: false, tier: tier.into(), extra: Value::Null });
+                v.push(Batch { check: "C06".into(), phase: "race".into(), uni: uni.clone(), seed, lo: i * 4 * RACE_W, hi: (i + 1) * 4 * RACE_W, fresh: false, tier: tier.into(), extra: Value::Null });
             }
         }
     }
@@ -134,6 +155,8 @@ pub fn warm_world_with_outside() -> crate::world::WorldSpec {
     let mut w = warm_world();
     w.push(crate::world::Entry::file("outside/secret", "OUTSIDE-SECRET"));
     w.push(crate::world::Entry::file("outside/dirfile", "OUTSIDE-DIRFILE"));
+    w.push(crate::world::Entry::link("outside/to-pid1", "1"));
+    w.push(crate::world::Entry::link("outside/to-abs-pid1", "/proc/1"));
     w
 }
 
@@ -195,11 +218,13 @@ pub struct H {
     pub dsts: Vec<(String, bool)>,
     pub recs: Vec<(usize, String)>,
     pub absolute: Vec<(usize, String, String)>,
+    /// (op index, kind, path, mount id, description) of every returned descriptor
+    pub fd_results: Vec<(usize, String, String, u64, String)>,
 }
 
 impl H {
     pub fn new() -> H {
-        H { atk_mounts: Vec::new(), atk_inodes: Vec::new(), base_mounts: mount_ids(), ctor_failed: false, dsts: Vec::new(), recs: Vec::new(), absolute: Vec::new() }
+        H { atk_mounts: Vec::new(), atk_inodes: Vec::new(), base_mounts: mount_ids(), ctor_failed: false, dsts: Vec::new(), recs: Vec::new(), absolute: Vec::new(), fd_results: Vec::new() }
     }
     fn note_mounts(&mut self, muts: &[Mutation]) {
         for m in muts {
@@ -258,6 +283,7 @@ impl Hooks for H {
         };
         let r = match (&rec.outcome, &rec.facts) {
             (Outcome::Fd(_), Some(f)) => {
+                self.fd_results.push((rec.idx, kind.to_string(), path.clone(), f.mnt_id, f.path.clone()));
                 // absolute clauses: never an object of an attacker mount
                 if self.atk_mounts.contains(&f.mnt_id) {
                     self.absolute.push((rec.idx, "returned-over-mounted-object".into(), format!("{kind}({path:?}) returned {} which lives on mount {} placed by the attacker", f.path, f.mnt_id)));
@@ -332,7 +358,17 @@ fn run_pair(u: &mut Universe, case: &Case, st: &mut Stats, sample: bool) -> bool
     }
     let mut h = H::new();
     let out = run_case(u, case, &mut h, false);
-    // mounts placed by scripted decisions (race phase)
+    // mounts placed by scripted decisions (race phase) are only known now: the absolute
+    // clause "never an object of an attacker mount" is evaluated for them here
+    if out.decisions.iter().any(|d| !d.attack.is_empty()) {
+        h.note_mounts(&[]);
+        let fr = h.fd_results.clone();
+        for (i, kind, path, mnt, desc) in fr {
+            if h.atk_mounts.contains(&mnt) && !h.absolute.iter().any(|(j, c, _)| *j == i && c == "returned-over-mounted-object") {
+                h.absolute.push((i, "returned-over-mounted-object".into(), format!("{kind}({path:?}) returned {desc} which lives on mount {mnt} placed by the attacker while the lookup was running")));
+            }
+        }
+    }
     for d in &out.decisions {
         for m in &d.attack {
             if let Mutation::MountOn { dst, nofollow, .. } = m {
@@ -344,8 +380,9 @@ fn run_pair(u: &mut Universe, case: &Case, st: &mut Stats, sample: bool) -> bool
     // mounts on symlink / magic-link dentries cannot always be removed by
     // path: a universe that has seen mounts is never reused (its private
     // mount namespace disappears with it)
-    if !h.dsts.is_empty() {
+    if !h.dsts.is_empty() && mount_ids() != hb.base_mounts {
         u.poisoned = true;
+        st.count("mounts.universe_abandoned", 1);
     }
     if let Some(e) = &out.harness_error {
         st.harness_errors.push(format!("mounted: {e}"));
@@ -396,21 +433,82 @@ fn run_pair(u: &mut Universe, case: &Case, st: &mut Stats, sample: bool) -> bool
     true
 }
 
-/// racing phase: one mount (or umount) placed at every window of a non-following lookup on a private handle
+/// racing phase: one mount placed at every window of a non-following lookup (private and host-/proc handles)
+/// run indices of the racing phases are (case * RACE_W + window), so that a universe that had to be
+/// abandoned after a mount it could not remove is resumed at the next *window*, not the next case
+pub const RACE_W: u64 = 96;
+
 pub fn race_cases(u: &mut Universe, seed: u64, idx: u64, uni: &UniCfg, st: &mut Stats) -> bool {
+    let (idx, window) = (idx / RACE_W, (idx % RACE_W) as usize);
     let mut rng = Rng::new(rng::derive(seed, "C06-race", idx));
     let tg = targets();
     let (dst, nofollow, dir, ls) = rng.pick(&tg).clone();
     let (base, path) = *rng.pick(&ls);
     let src = sources(dir, &mut rng);
-    let (ctor, cname) = *rng.pick(&[(None, "global"), (Some(ProcCtor::New), "new"), (Some(ProcCtor::FromFsopen), "fsopen-unmasked")]);
+    race_one(u, uni, st, &mut rng, dst, nofollow, &src, base, path, None, window)
+}
+
+/// enumerated part of the racing phase: (target, source, handle kind, lookup) fixed, every window
+#[allow(clippy::type_complexity)]
+pub fn race_matrix() -> Vec<(&'static str, bool, &'static str, Base, &'static str, ProcCtor, &'static str, i32, bool)> {
+    let mut v = Vec::new();
+    for (dst, nofollow, base, path) in [
+        ("/proc/self/status", false, Base::SelfP, "status"),
+        ("/proc/uptime", false, Base::Root, "uptime"),
+        ("/proc/self/exe", true, Base::SelfP, "exe"),
+        ("/proc/self", true, Base::SelfP, "status"),
+        ("/proc/sys/kernel", false, Base::Root, "sys/kernel/ostype"),
+    ] {
+        for src in ["/proc/1/status", "/proc/version", "/mnt/w/outside/secret", "nofollow:/mnt/w/outside/to-pid1", "/proc/fs"] {
+            let dir_dst = dst == "/proc/sys/kernel";
+            if (src == "/proc/fs") != dir_dst {
+                continue;
+            }
+            for (ctor, cname) in [(ProcCtor::FromPlainOpen, "plain-open"), (ProcCtor::FromOpenTreeRec, "open_tree-recursive"), (ProcCtor::New, "new")] {
+                for (flags, readlink) in [(libc::O_RDONLY | libc::O_NONBLOCK, false), (libc::O_PATH, false), (0, true)] {
+                    if readlink && path != "exe" {
+                        continue;
+                    }
+                    v.push((dst, nofollow, src, base, path, ctor, cname, flags, readlink));
+                }
+            }
+        }
+    }
+    v
+}
+
+pub fn race_matrix_case(u: &mut Universe, idx: u64, uni: &UniCfg, st: &mut Stats) -> bool {
+    let (idx, window) = (idx / RACE_W, (idx % RACE_W) as usize);
+    let m = race_matrix();
+    let (dst, nofollow, src, base, path, ctor, cname, flags, readlink) = m[idx as usize % m.len()];
+    let mut rng = Rng::new(idx);
+    race_one(u, uni, st, &mut rng, dst, nofollow, src, base, path, Some((ctor, cname, flags, readlink)), window)
+}
+
+#[allow(clippy::too_many_arguments)]
+fn race_one(u: &mut Universe, uni: &UniCfg, st: &mut Stats, rng: &mut Rng, dst: &str, nofollow: bool, src: &str, base: Base, path: &str, fixed: Option<(ProcCtor, &'static str, i32, bool)>, window: usize) -> bool {
+    let src = src.to_string();
+    // private handles must be unaffected; handles on the host's /proc (plain open, recursive
+    // clone taken before the mount) may fail, but a success is never the over-mounted object
+    let (ctor, cname) = if let Some((c, n, _, _)) = fixed { (Some(c), n) } else { *rng.pick(&[
+        (None, "global"),
+        (Some(ProcCtor::New), "new"),
+        (Some(ProcCtor::FromFsopen), "fsopen-unmasked"),
+        (Some(ProcCtor::FromPlainOpen), "plain-open"),
+        (Some(ProcCtor::FromPlainOpen), "plain-open"),
+        (Some(ProcCtor::FromOpenTreeRec), "open_tree-recursive"),
+    ]) };
     let handle = ctor.map(|_| 0usize);
     let facade = if handle.is_none() { Facade::C } else { Facade::Rust };
     let mut ops = Vec::new();
     if let Some(ct) = ctor {
         ops.push(OpSpec::new(Op::ProcNew { ctor: ct, store: 0 }));
     }
-    let lk = lookup_op(&mut rng, handle, base, path, facade, true);
+    let lk = match fixed {
+        Some((_, _, _, true)) => OpSpec::new(Op::ProcReadlink { handle, base, path: path.into(), bufsz: 512 }).facade(facade),
+        Some((_, _, flags, false)) => OpSpec::new(Op::ProcOpen { handle, base, path: path.into(), flags, follow: false }).facade(facade),
+        None => lookup_op(rng, handle, base, path, facade, true),
+    };
     ops.push(lk);
     let target_op = ops.len() - 1;
     let mk = |script: Vec<Dec>| {
@@ -428,8 +526,11 @@ pub fn race_cases(u: &mut Universe, seed: u64, idx: u64, uni: &UniCfg, st: &mut 
         return !u.poisoned;
     }
     let wins: Vec<usize> = out0.trace.iter().filter(|e| e.lib && e.op == Some(target_op) && e.nr != crate::seam::HYPERCALL_NR).map(|e| e.step).collect();
-    st.count("race.windows_total", wins.len() as u64);
-    for w in wins {
+    if window == 0 {
+        st.count("race.windows_total", wins.len() as u64);
+        st.count("race.windows_beyond_bound", wins.len().saturating_sub(RACE_W as usize) as u64);
+    }
+    for w in wins.into_iter().skip(window).take(1) {
         let case = mk(vec![Dec { step: w, attack: vec![Mutation::MountOn { src: src.clone(), dst: dst.into(), nofollow }], ..Default::default() }]);
         if !run_pair(u, &case, st, false) {
             return false;
@@ -462,6 +563,11 @@ pub fn run(u: &mut Universe, b: &Batch, st: &mut Stats) {
                     return;
                 }
             }
+            "race-matrix" => {
+                if !race_matrix_case(u, idx, &b.uni, st) {
+                    return;
+                }
+            }
             _ => {
                 let case = gen_case(b.seed, idx, &b.uni);
                 if !run_pair(u, &case, st, idx == b.lo) {
@@ -486,7 +592,7 @@ pub fn finalise(tier: &str, seed: u64, res: coord::CheckResult) -> i32 {
         tier,
         seed,
         "exploration",
-        "one evaluation = one procfs lookup (open, open_follow, readlink; Rust handle or the C API's global handle) executed twice: on a clean /proc and with 1-3 mounts placed by the simulated attacker (fd-based move_mount exactly on the dentry, so symlinks and magic-links can be over-mounted) on files, directories, in-procfs symlinks, magic-links, /proc/self, /proc/thread-self and /proc itself - tmpfs, bind of a foreign file/directory, bind of another procfs file/directory, bind of a magic-link target; handle kinds: fsopen (subset and unmasked), open_tree non-recursive and recursive (taken before or after the mounts), plain open, global; universes K/E x new mount API {available, fsopen refused, all refused}; oracles: a successful result never lives on a mount the attacker placed nor is the mounted object; a handle backed by a private procfs gives exactly the result it gives without the mounts; any other handle gives that result or an error; race phase: for non-following lookups on private handles one mount is placed at every window of the lookup; non-trivial = at least one attacker mount took effect; distinct = hash of the case",
+        "one evaluation = one procfs lookup (open, open_follow, readlink; Rust handle or the C API's global handle) executed twice: on a clean /proc and with 1-3 mounts placed by the simulated attacker (fd-based move_mount exactly on the dentry, so symlinks and magic-links can be over-mounted) on files, directories, in-procfs symlinks, magic-links, /proc/self, /proc/thread-self and /proc itself - tmpfs, bind of a foreign file/directory, bind of another procfs file/directory, bind of a magic-link target, bind of a symlink as such (a foreign link that leads into another process's directory, procfs's own links); handle kinds: fsopen (subset and unmasked), open_tree non-recursive and recursive (taken before or after the mounts), plain open, global; universes K/E x new mount API {available, fsopen refused, all refused}; oracles: a successful result never lives on a mount the attacker placed nor is the mounted object; a handle backed by a private procfs gives exactly the result it gives without the mounts; any other handle gives that result or an error; race phase: for non-following lookups one mount is placed at every window of the lookup, on private handles (must be unaffected) and on handles that live on the host's /proc (plain open, recursive clone: may fail, a success is never the over-mounted object); non-trivial = at least one attacker mount took effect; distinct = hash of the case",
         res,
         extra,
         vec!["requires statx mount ids (Linux 5.8+), as the statement does".into(), "the final-component race of open_follow on non-private handles is outside the statement and not asserted".into()],
